@@ -17,7 +17,8 @@ Theorem full_sync_restores :
     s_time (st_cur s) <> [] ->
     length (s_time (st_cur s)) = length (cl_t (st_cl s)) ->
     let s' := exec p s [SyncReq; Settle] in
-    client_view s' = (s_time (st_cur s), s_q (st_cur s), 0) /\
+    client_view s' = (s_time (st_cur s), s_q (st_cur s),
+                      if p_sync_m p then s_m (st_cur s) else 0) /\
     st_wire s' = [] /\ cl_need (st_cl s') = false /\ cl_stuck (st_cl s') = false /\
     st_err s' = false /\ st_sv s' = st_sv s.
 Proof. exact C09Proofs.full_sync_restores_lemma. Qed.
@@ -37,6 +38,133 @@ Theorem stuck_forever :
     cl_stuck (st_cl s) = true -> st_cl (exec p s es) = st_cl s.
 Proof. exact C09Proofs.stuck_forever_lemma. Qed.
 Print Assumptions stuck_forever.
+
+(* (1) in-order delivery converges. For every configuration (schema or not,
+   any tracked subset) in deep, cumulative mode, every initial snapshot and
+   every history of rounds (any number of source transitions, then ONE export
+   - a push or the reply of a client-issued mutation - that is delivered
+   before the next one is produced): the mirror is exactly the last snapshot.
+   Hypotheses: deltas within the field widths (C10), and every PUSH round
+   exports a snapshot whose queue tick and some synchronised tick moved -
+   without it the statement is false, see inorder_converges_refuted. *)
+Theorem inorder_converges :
+  forall (p : pcfg) (s0 : snap) (rs : list round),
+    p_mut p = false -> shallow (p_codec p) = false ->
+    cfg_wf (p_codec p) (length (s_time s0)) = true -> tracked (p_codec p) <> [] ->
+    (p_hello_m p = true \/ s_m s0 = 0) ->
+    rounds_ok (p_codec p) s0 rs ->
+    let st := exec p (init p s0) (flat_map round_events rs) in
+    let y := last_end s0 rs in
+    client_view st = (mirror (p_codec p) y, s_q y, s_m y) /\
+    mirror_ok (p_codec p) (s_time y) (cl_t (st_cl st)) = true /\
+    quiescent st = true /\ st_err st = false /\ cl_stuck (st_cl st) = false.
+Proof. exact C09Proofs.inorder_converges_lemma. Qed.
+Print Assumptions inorder_converges.
+
+Example inorder_converges_nonvacuous :
+  let c := {| sync_schema := false; shallow := false; tracked := [0; 2]%nat |} in
+  let p := {| p_codec := c; p_mut := false; p_hello_m := true; p_sync_m := true |} in
+  let s0 := {| s_time := [1; 4; 2]; s_q := 7; s_m := 1 |} in
+  let a := {| s_time := [3; 9; 2]; s_q := 9; s_m := 1 |} in
+  let b := {| s_time := [3; 9; 5]; s_q := 10; s_m := 1 |} in
+  let rs := [RPush [] a; RReply [a] b] in
+  rounds_ok c s0 rs /\
+  cl_t (st_cl (exec p (init p s0) (flat_map round_events rs))) = [3; 5].
+Proof. vm_compute. repeat split; discriminate. Qed.
+Print Assumptions inorder_converges_nonvacuous.
+
+(* (2) a mutation made through the network machine: when its reply has been
+   processed - the call returns - the mirror already is the snapshot the reply
+   was computed from (and nothing remains to be done) *)
+Theorem reply_visible_on_return :
+  forall (p : pcfg) (s : st) (x y : snap) (hello : bool) (mid : list snap),
+    p_mut p = false -> shallow (p_codec p) = false ->
+    synced p s x hello ->
+    length (s_time x) = length (s_time y) ->
+    cfg_wf (p_codec p) (length (s_time x)) = true ->
+    snaps_in_range x y = true ->
+    tracked (p_codec p) <> [] ->
+    let s1 := exec p s (map Src mid ++ [Src y; Reply; Write; Deliver]) in
+    synced p s1 y false /\
+    mirror_ok (p_codec p) (s_time y) (cl_t (st_cl s1)) = true /\
+    exec p s (map Src mid ++ [Src y; Reply; Write; Settle]) = s1.
+Proof. exact C09Proofs.reply_visible_lemma. Qed.
+Print Assumptions reply_visible_on_return.
+
+(* (3) a detected drift on the reply path is repaired: the reply is rejected,
+   the client requests a full Sync and ends up with the source's time *)
+Theorem reply_drift_resyncs :
+  forall (p : pcfg) (s : st) (x y : snap) (hello : bool),
+    p_mut p = false -> shallow (p_codec p) = false ->
+    srv_at p s x hello ->
+    sv_latest (st_sv s) = Some (mk_data (p_codec p) y) -> st_cur s = y ->
+    length (s_time x) = length (s_time y) ->
+    cfg_wf (p_codec p) (length (s_time x)) = true ->
+    snaps_in_range x y = true ->
+    length (cl_t (st_cl s)) = length (mirror (p_codec p) x) ->
+    Forall (fun v => v < w64) (cl_t (st_cl s)) -> cl_q (st_cl s) < w64 -> cl_m (st_cl s) < w32 ->
+    drifted (p_codec p) x (cl_t (st_cl s)) (cl_q (st_cl s)) (cl_m (st_cl s)) = true ->
+    s_time y <> [] -> length (s_time y) = length (cl_t (st_cl s)) ->
+    let s' := exec p s [Reply; Write; Settle] in
+    client_view s' = (s_time y, s_q y, if p_sync_m p then s_m y else 0) /\
+    st_synced s' = true /\ quiescent s' = true /\ st_err s' = false /\
+    sv_last (st_sv s') = mk_data (p_codec p) y.
+Proof. exact C09Proofs.reply_drift_resyncs_lemma. Qed.
+Print Assumptions reply_drift_resyncs.
+
+(* (4) ... but NOT on the push path (this refutes "after a detected clock
+   drift the client resynchronises" for pushes, for every drifted client):
+   the update is rejected, the client stays exactly as it is, no Sync is
+   requested, and the server now believes the client holds snapshot y *)
+Theorem push_drift_ignored :
+  forall (p : pcfg) (s : st) (x y : snap) (hello : bool),
+    p_mut p = false -> shallow (p_codec p) = false ->
+    srv_at p s x hello ->
+    sv_latest (st_sv s) = Some (mk_data (p_codec p) y) ->
+    length (s_time x) = length (s_time y) ->
+    cfg_wf (p_codec p) (length (s_time x)) = true ->
+    snaps_in_range x y = true ->
+    s_q x <> s_q y -> tracked_changed (p_codec p) x y = true ->
+    length (cl_t (st_cl s)) = length (mirror (p_codec p) x) ->
+    Forall (fun v => v < w64) (cl_t (st_cl s)) -> cl_q (st_cl s) < w64 -> cl_m (st_cl s) < w32 ->
+    drifted (p_codec p) x (cl_t (st_cl s)) (cl_q (st_cl s)) (cl_m (st_cl s)) = true ->
+    let s' := exec p s [Push; Settle] in
+    st_cl s' = st_cl s /\ st_rejpush s' = true /\
+    sv_last (st_sv s') = mk_data (p_codec p) y /\
+    srv_at p s' y false.
+Proof. exact C09Proofs.push_drift_ignored_lemma. Qed.
+Print Assumptions push_drift_ignored.
+
+(* (5) the reorder, for all snapshots: reply computed (x -> y1), a push
+   (y1 -> y2) computed, sent and delivered first, then the reply written and
+   delivered. Whenever the checksums of x and y1 differ modulo 256 the push is
+   rejected and dropped, the reply is accepted, the client holds y1, the
+   server believes y2, and no later push run changes anything: stale for ever.
+   (The full statement "one of them is rejected" without the checksum
+   hypothesis is false: 256 | sum difference makes the wrong push acceptable,
+   C10 checksum_detects is exactly this boundary.) *)
+Theorem reorder_stale_partial :
+  forall (p : pcfg) (x y1 y2 : snap) (hello : bool) (l0 : tdata) (la : option tdata)
+         (qu : list tdata) (errs : nat) (sil rej syn : bool) (np : nat),
+    p_mut p = false -> shallow (p_codec p) = false ->
+    l0 = srv_believes (p_codec p) hello x ->
+    length (s_time x) = length (s_time y1) -> length (s_time y1) = length (s_time y2) ->
+    cfg_wf (p_codec p) (length (s_time x)) = true -> tracked (p_codec p) <> [] ->
+    snaps_in_range x y1 = true -> snaps_in_range y1 y2 = true ->
+    s_q y1 <> s_q y2 -> tracked_changed (p_codec p) y1 y2 = true ->
+    Forall (fun v => v < w64) (mirror (p_codec p) x) -> s_q x < w64 -> s_m x < w32 ->
+    drifted (p_codec p) y1 (mirror (p_codec p) x) (s_q x) (s_m x) = true ->
+    let s := mkst (mk_server l0 la qu)
+                  (mk_client (mirror (p_codec p) x) (s_q x) (s_m x) false false errs)
+                  [] None x sil rej syn np in
+    let st := exec p s [Src y1; Reply; Src y2; Push; Deliver; Write; Deliver] in
+    client_view st = (mirror (p_codec p) y1, s_q y1, s_m y1) /\
+    sv_last (st_sv st) = mk_data (p_codec p) y2 /\ st_rejpush st = true /\
+    quiescent st = true /\ st_err st = false /\ cl_stuck (st_cl st) = false /\
+    mirror_ok (p_codec p) (s_time y2) (cl_t (st_cl st)) = false /\
+    forall n, exec p st (concat (repeat [Push; Settle] n)) = st.
+Proof. exact C09Proofs.reorder_stale_lemma. Qed.
+Print Assumptions reorder_stale_partial.
 
 (* refutations *)
 
@@ -124,19 +252,21 @@ Theorem full_sync_partial_refuted :
 Proof. exact C09Proofs.full_sync_partial_refuted_lemma. Qed.
 Print Assumptions full_sync_partial_refuted.
 
-Theorem reconnect_machtick_refuted :
-  exists (p : pcfg) (s0 a b : snap),
-    p_mut p = false /\ shallow (p_codec p) = false /\
+(* the unrepaired client (HandshakeDone ignores the Hello's MachineTick): on a
+   source whose MachineTick is not 0 every diff fails the checksum. /repo now
+   contains the repair (switch p_hello_m, probed by the harness on every run);
+   corpus/C09/reconnect_machtick.json fails again if it is reverted *)
+Theorem hello_machtick_unrepaired_refuted :
+  exists (p : pcfg) (s0 a : snap),
+    p_mut p = false /\ shallow (p_codec p) = false /\ p_hello_m p = false /\
     cfg_wf (p_codec p) (length (s_time s0)) = true /\
-    chain_in_range s0 [a; b] = true /\ s_m s0 = 1 /\
-    let st1 := exec p (init p s0) [Src a; Push; Settle] in
-    let st := exec p st1 [Hello; Src b; Push; Settle] in
-    mirror_ok (p_codec p) (s_time a) (cl_t (st_cl st1)) = true /\
+    chain_in_range s0 [a] = true /\ s_m s0 = 1 /\
+    let st := exec p (init p s0) [Src a; Push; Settle] in
     quiescent st = true /\ st_err st = false /\ st_rejpush st = true /\
-    mirror_ok (p_codec p) (s_time b) (cl_t (st_cl st)) = false /\
+    mirror_ok (p_codec p) (s_time a) (cl_t (st_cl st)) = false /\
     forall n, exec p st (concat (repeat [Push; Settle] n)) = st.
-Proof. exact C09Proofs.reconnect_machtick_refuted_lemma. Qed.
-Print Assumptions reconnect_machtick_refuted.
+Proof. exact C09Proofs.hello_machtick_refuted_lemma. Qed.
+Print Assumptions hello_machtick_unrepaired_refuted.
 
 Theorem shallow_push_stale_refuted :
   exists (p : pcfg) (s0 a : snap),
